@@ -144,7 +144,7 @@ def matrix_entries(res, d):
     return [[U.get(r, c) for c in range(d)] for r in range(d)]
 
 
-def check_const_history(db, rep):
+def check_const_history(db, rep, tier='quick'):
     """G.umat.state: the mixing matrix is a function of the stored angles and phases only.  For every dimension and
     every plane (i,j): [set angle; get U; set a new angle or phase; get U] on one object must give the matrix a fresh
     object gives after the same stores (a result remembered from before the store must not be handed out)."""
@@ -188,8 +188,68 @@ def check_const_history(db, rep):
                                  % ('MixingAngle' if kind == 'angle' else 'Phase', i, j, r, c, got[r][c], want[r][c]), fU['name'])
                     else:
                         rep.ok('G.umat.state')
-    rep.floor('G.umat.state', n, 60)
-    rep.sample('G.umat.state', '%d two-request histories (every dimension, every plane, angle and phase): second request reflects the store' % n)
+    # a request for another dimension in between must not leak into the next request
+    for d1 in DIMS:
+        for d2 in DIMS:
+            if d1 == d2:
+                continue
+            n += 1
+            site = 'history/dims/%d-then-%d' % (d1, d2)
+            try:
+                hooks = GslHooks()
+                it = Interp(unit, hooks)
+                obj = new_const(db, it)
+                it.call(fA, obj, [0, 1, Poly.var('th0')])
+                it.call(fU, obj, [d1])
+                got = matrix_entries(it.call(fU, obj, [d2]), d2)
+                hooks2 = GslHooks()
+                it2 = Interp(unit, hooks2)
+                ref = new_const(db, it2)
+                it2.call(fA, ref, [0, 1, Poly.var('th0')])
+                want = matrix_entries(it2.call(fU, ref, [d2]), d2)
+            except Thrown as t:
+                rep.fail('G.umat.state', site, unit.loc(t.node), 'a mixing matrix', 'throw: %s' % t.what, fU['name'])
+                continue
+            if all(got[r][c].equals(want[r][c]) for r in range(d2) for c in range(d2)):
+                rep.ok('G.umat.state')
+            else:
+                rep.fail('G.umat.state', site, unit.loc(fU), 'the matrix of the requested dimension built from the stored angles',
+                         'a request for dimension %d followed by one for dimension %d gives a different matrix than a fresh object' % (d1, d2), fU['name'])
+    if tier == 'thorough':
+        # stores to a *different* plane between the two requests (dimensions up to 4: all ordered pairs of planes)
+        for d in (2, 3, 4):
+            planes = [(i, j) for j in range(1, d) for i in range(j)]
+            for (i, j) in planes:
+                for (k, l) in planes:
+                    if (i, j) == (k, l):
+                        continue
+                    n += 1
+                    site = 'history/%d/angle(%d,%d)-then-angle(%d,%d)' % (d, i, j, k, l)
+                    try:
+                        hooks = GslHooks()
+                        it = Interp(unit, hooks)
+                        obj = new_const(db, it)
+                        it.call(fA, obj, [i, j, Poly.var('th0')])
+                        it.call(fU, obj, [d])
+                        it.call(fA, obj, [k, l, Poly.var('th1')])
+                        got = matrix_entries(it.call(fU, obj, [d]), d)
+                        hooks2 = GslHooks()
+                        it2 = Interp(unit, hooks2)
+                        ref = new_const(db, it2)
+                        it2.call(fA, ref, [i, j, Poly.var('th0')])
+                        it2.call(fA, ref, [k, l, Poly.var('th1')])
+                        want = matrix_entries(it2.call(fU, ref, [d]), d)
+                    except Thrown as t:
+                        rep.fail('G.umat.state', site, unit.loc(t.node), 'a mixing matrix', 'throw: %s' % t.what, fU['name'])
+                        continue
+                    if all(got[r][c].equals(want[r][c]) for r in range(d) for c in range(d)):
+                        rep.ok('G.umat.state')
+                    else:
+                        rep.fail('G.umat.state', site, unit.loc(fU), 'the matrix built from the angles and phases stored now',
+                                 'after SetMixingAngle(%d,%d,.) the matrix requested again differs from the one a fresh object gives' % (k, l), fU['name'])
+    rep.floor('G.umat.state', n, 80)
+    rep.sample('G.umat.state', '%d request histories (every dimension, every plane, angle and phase; every ordered pair of dimensions%s): a later request reflects exactly the stored values'
+               % (n, '; every ordered pair of planes up to dimension 4' if tier == 'thorough' else ''))
 
 
 def transformation_word(db, d):
@@ -595,4 +655,4 @@ def run(db, rep, tier):
     check_sandwich(db, rep, tier)
     check_weighted(db, rep)
     check_const_accessors(db, rep)
-    check_const_history(db, rep)
+    check_const_history(db, rep, tier)
